@@ -133,6 +133,7 @@ type input struct {
 	Servers int    `json:"servers,omitempty"`
 	Runs    int    `json:"runs,omitempty"`
 	BF      int    `json:"bf,omitempty"`
+	Big     int    `json:"big,omitempty"` // e2e: every fourth message carries a body of this many bytes (several reads per frame on TCP)
 }
 
 type tokKey struct{ tree, run int }
@@ -752,8 +753,25 @@ type EPing struct {
 	Body []byte
 }
 
+// ebody is the body of e2e message id: small, or (every fourth message of a "big" case) large enough
+// to be read from the socket in several pieces, directly followed by small messages on the same link
+func ebody(id int) []byte {
+	b := body(id)
+	if elog != nil && elog.big > 0 && id%4 == 1 {
+		big := make([]byte, elog.big)
+		for i := range big {
+			big[i] = byte((i*31 + id) % 251)
+		}
+		copy(big, b)
+		return big
+	}
+	return b
+}
+
 type e2eLog struct {
 	sync.Mutex
+	big     int
+	corrupt int
 	insts []*eproto
 	sent [][2]int
 	recv [][2]int
@@ -799,7 +817,7 @@ func (p *eproto) send(run int, to *onet.TreeNode) {
 	elog.Lock()
 	elog.sent = append(elog.sent, [2]int{id, dest})
 	elog.Unlock()
-	if err := p.SendTo(to, &EPing{ID: id, Run: run, Dest: dest, Body: body(id)}); err != nil {
+	if err := p.SendTo(to, &EPing{ID: id, Run: run, Dest: dest, Body: ebody(id)}); err != nil {
 		elog.Lock()
 		elog.bad++
 		elog.Unlock()
@@ -842,16 +860,19 @@ func (p *eproto) handleEPing(m struct {
 }) error {
 	me := m.EPing.Run*100 + p.nodeIndex(p.TreeNode())
 	elog.Lock()
-	elog.recv = append(elog.recv, [2]int{m.EPing.ID, me})
-	if string(m.EPing.Body) != string(body(m.EPing.ID)) {
-		elog.bad++
+	if string(m.EPing.Body) != string(ebody(m.EPing.ID)) {
+		// changed content: reported as a message that was never sent (and the sent one as missing)
+		elog.corrupt++
+		elog.recv = append(elog.recv, [2]int{m.EPing.ID + 1000000, me})
+	} else {
+		elog.recv = append(elog.recv, [2]int{m.EPing.ID, me})
 	}
 	elog.Unlock()
 	return nil
 }
 
 func runE2E(in input) lib.Case {
-	elog = &e2eLog{seed: in.Seed}
+	elog = &e2eLog{seed: in.Seed, big: in.Big}
 	var lt *onet.LocalTest
 	if in.TCP {
 		lt = onet.NewTCPTest(suite)
@@ -1069,6 +1090,115 @@ func runStress(in input) lib.Case {
 	return lib.Case{Coq: coq, Class: in.Name, Obs: obs, Nontrivial: len(sentB) > 3, Key: fmt.Sprint(in.Seed, in.Runs, in.Servers)}
 }
 
+// runFlushFail: messages of several runs are parked for a tree the server does not have; some of
+// them cannot be handed over when the tree arrives (token naming a node that is not in the tree,
+// or a protocol that is not registered on this server: TransmitMsg returns an error in the flush).
+// Every other parked message must still reach its instance exactly once.
+func runFlushFail(in input) lib.Case {
+	cnt = &counters{tokOf: map[int]onet.TokenID{}, insts: map[onet.RoundID]*tproto{}, ctor: map[onet.RoundID]int{}}
+	lt := onet.NewLocalTest(suite)
+	lt.Check = onet.CheckNone
+	servers := lt.GenServers(3)
+	rID = servers[0].ServerIdentity.ID
+	roster := lt.GenRosterFromHost(servers...)
+	trees := mkTrees(roster)
+	tr := trees[1]
+	ov := servers[0].VerifOverlay()
+	sched := lib.NewSched()
+	onet.SetVerifHook(sched.Hook)
+	defer func() {
+		onet.SetVerifHook(func(string, ...interface{}) {})
+		cnt.Lock()
+		var ps []*tproto
+		for _, p := range cnt.insts {
+			ps = append(ps, p)
+		}
+		cnt.Unlock()
+		for _, p := range ps {
+			p.Done()
+		}
+		closeAll(lt)
+		cnt = nil
+	}()
+	rng := rand.New(rand.NewSource(in.Seed))
+	pid := onet.ProtocolNameToID(protoName)
+	nruns := 2 + rng.Intn(3)
+	toks := make([]*onet.Token, nruns)
+	for r := range toks {
+		toks[r] = &onet.Token{RosterID: tr.Roster.ID, TreeID: tr.ID, ProtoID: pid,
+			RoundID: onet.RoundID(uuid.Must(uuid.NewRandom())), TreeNodeID: tr.Root.ID}
+	}
+	child := tr.Root.Children[0]
+	process := func(tok *onet.Token, id int) {
+		buf, _ := network.Marshal(&Ping{N: id, Body: body(id)})
+		ov.Process(&network.Envelope{ServerIdentity: child.ServerIdentity, MsgType: onet.ProtocolMsgID,
+			Msg: &onet.ProtocolMsg{From: tok.ChangeTreeNodeID(child.ID), To: tok, MsgSlice: buf, MsgType: network.MessageType(&Ping{})}})
+	}
+	var sent [][2]int
+	n := 4 + rng.Intn(8)
+	id := 0
+	shape := ""
+	for i := 0; i < n; i++ {
+		switch k := rng.Intn(4); {
+		case k == 0 && i < n-1:
+			// a run whose token names a node that is not in the tree
+			bad := *toks[rng.Intn(nruns)]
+			bad.RoundID = onet.RoundID(uuid.Must(uuid.NewRandom()))
+			bad.TreeNodeID = onet.TreeNodeID(uuid.Must(uuid.NewRandom()))
+			process(&bad, 900000+i)
+			shape += "n"
+		case k == 1 && i < n-1:
+			// a run of a protocol that this server does not know
+			bad := *toks[rng.Intn(nruns)]
+			bad.RoundID = onet.RoundID(uuid.Must(uuid.NewRandom()))
+			bad.ProtoID = onet.ProtocolNameToID("VerifC01NotRegisteredHere")
+			process(&bad, 900000+i)
+			shape += "p"
+		default:
+			id++
+			tok := toks[rng.Intn(nruns)]
+			cnt.Lock()
+			cnt.tokOf[id] = tok.ID()
+			cnt.Unlock()
+			sent = append(sent, [2]int{id, 1})
+			process(tok, id)
+			shape += "g"
+		}
+	}
+	fd := sched.Block("overlay.flushDone", 1, func(args []interface{}) bool {
+		t, ok := args[1].(*onet.Tree)
+		return ok && t.ID.Equal(tr.ID)
+	})
+	ov.Process(&network.Envelope{ServerIdentity: child.ServerIdentity, MsgType: onet.ResponseTreeMsgID,
+		Msg: &onet.ResponseTree{TreeMarshal: tr.MakeTreeMarshal(), Roster: tr.Roster}})
+	ok := fd.WaitHit(20 * time.Second)
+	fd.Release()
+	if !ok {
+		return lib.Case{Discard: true, Class: in.Name, Obs: "flush did not finish"}
+	}
+	time.Sleep(20 * time.Millisecond)
+	cnt.Lock()
+	var recv [][2]int
+	for _, a := range cnt.accepted {
+		if a >= 900000 {
+			a = id + 1 // an undeliverable message was handed to somebody
+		}
+		recv = append(recv, [2]int{a, 1})
+	}
+	if cnt.wrong > 0 {
+		recv = append(recv, [2]int{id + 2, 1})
+	}
+	cnt.Unlock()
+	less := func(s [][2]int) func(i, j int) bool {
+		return func(i, j int) bool { return s[i][0] < s[j][0] }
+	}
+	sort.Slice(sent, less(sent))
+	sort.Slice(recv, less(recv))
+	coq := fmt.Sprintf("CE2E %s %s", lib.PairList(sent), lib.PairList(recv))
+	obs := map[string]interface{}{"parked": shape, "sent": len(sent), "received": len(recv), "still_parked": len(ov.VerifPending())}
+	return lib.Case{Coq: coq, Class: in.Name, Obs: obs, Nontrivial: len(sent) > 1, Key: fmt.Sprint(in.Seed)}
+}
+
 func run(raw json.RawMessage) lib.Case {
 	var in input
 	if err := json.Unmarshal(raw, &in); err != nil {
@@ -1076,6 +1206,9 @@ func run(raw json.RawMessage) lib.Case {
 	}
 	if in.Kind == "e2e" {
 		return runE2E(in)
+	}
+	if in.Kind == "flushfail" {
+		return runFlushFail(in)
 	}
 	if in.Kind == "stress" {
 		return runStress(in)
@@ -1129,6 +1262,22 @@ func generate(rng *rand.Rand, tier string) []interface{} {
 		}
 		ins = append(ins, input{Kind: "e2e", Name: name, TCP: tcp, Servers: 3 + rng.Intn(5), Runs: 1 + rng.Intn(4),
 			BF: 1 + rng.Intn(3), Seed: rng.Int63()})
+	}
+	// large messages directly followed by small ones on the same TCP links
+	nbig := 2
+	if tier != "quick" {
+		nbig = 12
+	}
+	for i := 0; i < nbig; i++ {
+		ins = append(ins, input{Kind: "e2e", Name: "e2e-tcp-big", TCP: true, Servers: 3 + rng.Intn(2), Runs: 2 + rng.Intn(2),
+			BF: 1 + rng.Intn(2), Big: 200000 + rng.Intn(600000), Seed: rng.Int63()})
+	}
+	nff := 12
+	if tier != "quick" {
+		nff = 300
+	}
+	for i := 0; i < nff; i++ {
+		ins = append(ins, input{Kind: "flushfail", Name: "flush-with-undeliverable", Seed: rng.Int63()})
 	}
 	nstress := 6
 	if tier != "quick" {
